@@ -158,12 +158,12 @@ func ReaderFromDelta(base plumbing.EncodedObject, deltaRC io.Reader) (io.ReadClo
 			case isCopyFromSrc(cmd):
 				offset, err := decodeOffsetByteReader(cmd, deltaBuf)
 				if err != nil {
-					_ = dstWr.CloseWithError(err)
+					_ = dstWr.CloseWithError(eofIsInvalidDelta(err))
 					return
 				}
 				sz, err := decodeSizeByteReader(cmd, deltaBuf)
 				if err != nil {
-					_ = dstWr.CloseWithError(err)
+					_ = dstWr.CloseWithError(eofIsInvalidDelta(err))
 					return
 				}
 
@@ -203,7 +203,10 @@ func ReaderFromDelta(base plumbing.EncodedObject, deltaRC io.Reader) (io.ReadClo
 					basePos += uint(n)
 					discard -= uint(n)
 				}
-				if _, err := ioutil.CopyBufferPool(dstWr, io.LimitReader(baseBuf, int64(sz))); err != nil {
+				if n, err := ioutil.CopyBufferPool(dstWr, io.LimitReader(baseBuf, int64(sz))); err != nil || n != int64(sz) {
+					if err == nil {
+						err = ErrInvalidDelta
+					}
 					_ = dstWr.CloseWithError(err)
 					return
 				}
@@ -216,7 +219,10 @@ func ReaderFromDelta(base plumbing.EncodedObject, deltaRC io.Reader) (io.ReadClo
 					_ = dstWr.CloseWithError(ErrInvalidDelta)
 					return
 				}
-				if _, err := ioutil.CopyBufferPool(dstWr, io.LimitReader(deltaBuf, int64(sz))); err != nil {
+				if n, err := ioutil.CopyBufferPool(dstWr, io.LimitReader(deltaBuf, int64(sz))); err != nil || n != int64(sz) {
+					if err == nil {
+						err = ErrInvalidDelta // literal cut short by the end of the delta
+					}
 					_ = dstWr.CloseWithError(err)
 					return
 				}
@@ -407,8 +413,10 @@ func patchDeltaWriter(dst io.Writer, base io.ReaderAt, deltaBuf *bufio.Reader,
 				return 0, plumbing.ZeroHash, err
 			}
 			baselr.N = int64(sz)
-			if _, err := io.CopyBuffer(mw, baselr, buf); err != nil {
+			if n, err := io.CopyBuffer(mw, baselr, buf); err != nil {
 				return 0, plumbing.ZeroHash, err
+			} else if n != int64(sz) {
+				return 0, plumbing.ZeroHash, ErrInvalidDelta
 			}
 			remainingTargetSz -= sz
 		case isCopyFromDelta(cmd):
@@ -417,8 +425,11 @@ func patchDeltaWriter(dst io.Writer, base io.ReaderAt, deltaBuf *bufio.Reader,
 				return 0, plumbing.ZeroHash, ErrInvalidDelta
 			}
 			deltalr.N = int64(sz)
-			if _, err := io.CopyBuffer(mw, deltalr, buf); err != nil {
+			if n, err := io.CopyBuffer(mw, deltalr, buf); err != nil {
 				return 0, plumbing.ZeroHash, err
+			} else if n != int64(sz) {
+				// literal cut short by the end of the delta
+				return 0, plumbing.ZeroHash, ErrInvalidDelta
 			}
 
 			remainingTargetSz -= sz
@@ -436,6 +447,16 @@ func patchDeltaWriter(dst io.Writer, base io.ReaderAt, deltaBuf *bufio.Reader,
 	}
 
 	return targetSz, hasher.Sum(), nil
+}
+
+// eofIsInvalidDelta maps a clean EOF in the middle of an instruction to
+// ErrInvalidDelta, so that a pipe reader does not mistake it for the end of
+// the object.
+func eofIsInvalidDelta(err error) error {
+	if err == io.EOF {
+		return ErrInvalidDelta
+	}
+	return err
 }
 
 func isCopyFromSrc(cmd byte) bool {
